@@ -105,7 +105,9 @@ fn recognize_http(method: &str, mut path: &str) -> Result<Proxy, anyhow::Error> 
     if path.ends_with('/') {
         path = &path[..path.len() - 1];
     }
-    if let Some(i) = path.find("://").map(|i| i + 3) {
+    // "://" marks an absolute-form target only right after a scheme; inside a path ("/x://y") it is just text
+    let scheme_end = path.find("://").filter(|&i| i > 0 && path[..i].bytes().all(|b| b.is_ascii_alphanumeric() || matches!(b, b'+' | b'-' | b'.')));
+    if let Some(i) = scheme_end.map(|i| i + 3) {
         if let Some(j) = path[i..].find('/').map(|j| j + i) { path = &path[i..j] } else { path = &path[i..] }
     } else if "CONNECT" != method {
         // origin-form ("GET /index.html"): a proxy is asked with the absolute form, there is no host to tunnel to
